@@ -11,7 +11,7 @@ import (
 	"verif/checker/ssax"
 )
 
-func init() { Registry["C15"] = Spec{Run: runC15} }
+func init() { Registry["C15"] = Spec{Run: runC15, Packages: []string{"txtar", "cmd/txtar-x", "cmd/txtar-c"}} }
 
 func runC15(ctx *core.Ctx) {
 	ctx.Trusted = append(ctx.Trusted, "go/types, go/ssa", "semantics of filepath.Clean/Join/IsAbs/IsLocal and of os.OpenFile flags (O_EXCL|O_CREATE never opens an existing file)")
